@@ -19,7 +19,7 @@ Import ListNotations.
 Local Open Scope Z_scope.
 
 Inductive tpl := TPipeline | TFanout | TMutex | TProdCons | TSelMain | TSelPriv | TClosure
-               | THostCall | TMulti | TSelSend | TSelSendX | TGoLit.
+               | THostCall | TMulti | TSelSend | TSelSendX | TGoLit | TOps.
 
 Record params := mkparams { p_tpl : tpl; p_n : nat; p_k : nat; p_a : Z; p_b : Z }.
 
@@ -81,6 +81,14 @@ Definition g_selsendx (n k : nat) (a b : Z) : list Z :=
 Definition g_golit (n k : nat) (a b : Z) : list Z :=
   map (fun id => zsum (map (fun x => x + id * a) (zseq 0 k)) + b) (zseq 0 n).
 
+(** operand templates (harness/c08_ops.go): N goroutines run the SAME function — the same call sites, statements
+    and generated closures — on per-goroutine operands (interface values, method values, closures, structs, arrays,
+    slices, maps, dynamic types, composite literals, deferred calls, ranges, ...); worker [id] computes this figure
+    from ITS operand, whatever the mechanism. A closure that keeps an operand per statement instead of per execution
+    makes a worker compute another worker's figure. *)
+Definition g_ops (n k : nat) (a b : Z) : list Z :=
+  map (fun id => zsum (map (fun x => (id * a + b + x) mod 1009) (zseq 1 k))) (zseq 0 n).
+
 Definition g_expected (p : params) : list Z :=
   let n := p_n p in let k := p_k p in let a := p_a p in let b := p_b p in
   match p_tpl p with
@@ -96,6 +104,7 @@ Definition g_expected (p : params) : list Z :=
   | TSelSend => g_selsend n k a b
   | TSelSendX => g_selsendx n k a b
   | TGoLit => g_golit n k a b
+  | TOps => g_ops n k a b
   end.
 
 (** * Y *)
